@@ -171,7 +171,7 @@ func (r *Report) Finish() int {
 		b, _ := json.MarshalIndent(o, "", " ")
 		os.WriteFile(fn, b, 0o644)
 		lines = append(lines, fmt.Sprintf("VIOLATION property=%s replay=%s", r.Prop, fn))
-		lines = append(lines, fmt.Sprintf("  rule=%s key=%s at %s: %s", o.Rule, o.Key, o.Pos, o.Detail))
+		lines = append(lines, fmt.Sprintf("  rule=%s key=%s at %s: %s", o.Rule, o.Key, o.Pos, clip(o.Detail, 700)))
 	}
 	wall := time.Since(r.Start).Seconds()
 	// evidence
@@ -256,4 +256,11 @@ func (r *Report) Finish() int {
 		return 1
 	}
 	return 0
+}
+
+func clip(s string, n int) string {
+	if len(s) > n {
+		return s[:n] + "…"
+	}
+	return s
 }
